@@ -157,6 +157,8 @@ func c20Config(c *Ctx, prog *load.Program) {
 		}
 	}
 	c.R.Floor("C20-2", 100)
+	// ---- rule 4: shared objects own their memory
+	c20Owns(c, prog, an, entries, cfg)
 	// ---- rule 3: no concurrency constructs
 	bad := 0
 	for _, f := range rfuncs {
@@ -263,7 +265,124 @@ func c20Control(c *Ctx) {
 		c.R.ControlResult("C20-2", "fixture/memoising-getter", "a getter that caches into its receiver must be reported", getterWrites)
 		c.R.ControlResult("C20-2", "fixture/pure-getter-not-flagged", "a pure getter must not be reported", !pureWrites)
 		c.R.ControlResult("C20-3", "fixture/goroutine", "a go statement must be reported", conc)
+		notOwned := map[string]bool{}
+		for _, f := range entries {
+			if s := an.Sum[f]; s != nil {
+				for _, o := range effects.SortedOrigins(s.RetDeep[0]) {
+					if o.Kind == "param" || o.Kind == "global" {
+						notOwned[f.Name()] = true
+					}
+				}
+			}
+		}
+		c.R.ControlResult("C20-4", "fixture/constructor-keeps-caller-buffer", "a constructor that stores (a slice of) its argument must be reported", notOwned["NewKView"])
+		c.R.ControlResult("C20-4", "fixture/getter-returns-cached-slice", "a getter handing out its cached slice must be reported", notOwned["Enc"])
+		c.R.ControlResult("C20-4", "fixture/package-level-bytes", "a function handing out package-level bytes must be reported", notOwned["Shared"])
+		c.R.ControlResult("C20-4", "fixture/copies-not-flagged", "copying constructors and getters must not be reported", !notOwned["NewKCopy"] && !notOwned["EncCopy"])
 		return
 	}
 	c.R.ControlResult("C20-1", "fixture", "the positive-control fixture could not be loaded", false)
+}
+
+// c20Owns: every object the API hands out, and every object it fills in, owns the memory reachable from it.  A key, point or
+// byte string that several goroutines read is race free only if nobody else can write its memory: it must not point into a
+// caller's buffer (the caller is free to reuse that buffer), into package-level state (every caller gets the same bytes), or -
+// unless it is an immutable key object - into another shared object.  Decided on the may-alias summaries of the effect analysis:
+// for every exported function and method of the public packages and every pointer-like result other than `error`, the origins of
+// all memory reachable from the result; for every method, the origins of the pointers stored into its receiver.
+func c20Owns(c *Ctx, prog *load.Program, an *effects.Analysis, entries []*ssa.Function, cfg string) {
+	errT := types.Universe.Lookup("error").Type()
+	keyTypes := map[string]bool{models.SececPkg + ".PrivateKey": true, models.SececPkg + ".PublicKey": true, models.BitcoinPkg + ".SchnorrPrivateKey": true, models.BitcoinPkg + ".SchnorrPublicKey": true}
+	isKey := func(t types.Type) bool {
+		if p, ok := t.Underlying().(*types.Pointer); ok {
+			t = p.Elem()
+		}
+		return keyTypes[namedOf(t)]
+	}
+	// the one function whose documented purpose is to return a window into its argument: it takes a caller's byte string and
+	// splits it, no object of the library is involved (inside the library its result is copied before it is stored or
+	// returned - that is decided at those call sites, through this very summary)
+	views := map[string]bool{models.Mod + ".SplitUncompressedPoint": true}
+	n := 0
+	for _, f := range entries {
+		s := an.Sum[f]
+		if s == nil || f.Blocks == nil {
+			continue
+		}
+		recv := f.Signature.Recv()
+		res := f.Signature.Results()
+		for r := 0; r < res.Len(); r++ {
+			rt := res.At(r).Type()
+			if !pointerLikeType(rt) && !structHoldsPointers(rt) {
+				continue
+			}
+			if types.Identical(rt, errT) {
+				continue
+			}
+			n++
+			key := fmt.Sprintf("owns/%s/result%d@%s", shortFn(f), r, cfg)
+			setter := recv != nil && types.Identical(rt, recv.Type()) && !isKey(rt)
+			var bad []string
+			for _, o := range effects.SortedOrigins(s.RetDeep[r]) {
+				switch o.Kind {
+				case "fresh":
+				case "param":
+					if o.Index == 0 && recv != nil && (setter || isKey(recv.Type()) && (isKey(rt) || isIface(rt))) {
+						// setter-style methods return their receiver; a key object may hand out the immutable key objects it holds
+						continue
+					}
+					if views[f.String()] && recv == nil {
+						continue
+					}
+					bad = append(bad, "parameter "+f.Params[o.Index].Name())
+				case "global":
+					bad = append(bad, "package-level "+o.Global.Name())
+				default:
+					bad = append(bad, o.Kind)
+				}
+			}
+			if len(bad) > 0 {
+				c.R.Fail("C20-4", key, PosOf(prog, f), "memory reachable from the result is not owned by it: it may be (part of) "+strings.Join(bad, ", ")+" - a later write by that owner, or through this result, is seen by every goroutine sharing either")
+			} else {
+				c.R.OK("C20-4", key, PosOf(prog, f), "everything reachable from the result is freshly allocated (or is the receiver itself / an immutable key object it holds)")
+			}
+		}
+		if recv != nil {
+			var bad []string
+			for _, o := range effects.SortedOrigins(s.StoresInto[0]) {
+				switch o.Kind {
+				case "fresh":
+				case "param":
+					bad = append(bad, "parameter "+f.Params[o.Index].Name())
+				case "global":
+					bad = append(bad, "package-level "+o.Global.Name())
+				}
+			}
+			if len(bad) > 0 {
+				n++
+				c.R.Fail("C20-4", fmt.Sprintf("owns/%s/receiver@%s", shortFn(f), cfg), PosOf(prog, f), "the receiver is made to point into memory it does not own: "+strings.Join(bad, ", "))
+			}
+		}
+	}
+	c.R.Extra["owned_results@"+cfg] = n
+	c.R.Floor("C20-4", 60)
+}
+
+func isIface(t types.Type) bool {
+	_, ok := t.Underlying().(*types.Interface)
+	return ok
+}
+
+func structHoldsPointers(t types.Type) bool {
+	switch u := t.Underlying().(type) {
+	case *types.Struct:
+		for i := 0; i < u.NumFields(); i++ {
+			if pointerLikeType(u.Field(i).Type()) || structHoldsPointers(u.Field(i).Type()) {
+				return true
+			}
+		}
+	case *types.Array:
+		return pointerLikeType(u.Elem()) || structHoldsPointers(u.Elem())
+	}
+	return false
 }
